@@ -12,4 +12,5 @@ import FnGraphVerif.Model.Proto
 import FnGraphVerif.Model.Settle
 import FnGraphVerif.Model.StreamPoll
 import FnGraphVerif.Model.Spec
+import FnGraphVerif.Model.Monitor
 import FnGraphVerif.Model.StreamMicro
